@@ -65,7 +65,7 @@ def _mols(case):
 
 
 def run_case(case):
-    from ..budget import Horizon, IterationHorizon
+    from ..budget import IterationHorizon
 
     mols, pad = _mols(case)
     target = mols[-1]
@@ -81,7 +81,7 @@ def run_case(case):
     params = copy.deepcopy(_params(case, uhf))
     out = {"expected_rejection": exp}
     try:
-        hz = Horizon(3000) if case["sp2"] else None
+        hz = L.SP2Horizon(2000) if case["sp2"] else None
         if hz:
             hz.__enter__()
         try:
@@ -130,7 +130,10 @@ def run_case(case):
         d0, d1 = obs["dipole"][0], obs["dipole"][1]
         Q = float(target["charge"])
         err = float(np.abs((d1 - d0) - O.K_DIPOLE * Q * SHIFT).max())
-        rows[1].append(("d(x+t)-d(x)=Q t", err, 1e-8 * (1.0 + abs(Q)) * float(np.abs(SHIFT).max())))
+        # both rows carry an electron-count error of at most the 'sum q = charge' tolerance, which t multiplies
+        tmax = float(np.abs(SHIFT).max())
+        qtol = max(1e-8, 10 * SP2_TOL) if case["sp2"] else 0.0
+        rows[1].append(("d(x+t)-d(x)=Q t", err, 1e-8 * (1.0 + abs(Q)) * tmax + 2.0 * O.K_DIPOLE * tmax * qtol))
     out["rows"] = rows
     out["finite"] = all(L.finite(obs[k]) for k in ("Etot", "Hf", "q", "e_mo") if obs.get(k) is not None)
     out["sig"] = f"{float(obs['Etot'][-1]):.6f}"
